@@ -193,6 +193,8 @@ type Sim struct {
 	starveOn  bool
 
 	nReal    int
+	invariant func() (string, string)
+	stepHooks []stepHook
 	progress int64 // atomic, for the watchdog
 }
 
@@ -411,6 +413,19 @@ func (s *Sim) loop(root *G) {
 			s.violation = &Violation{Class: "steplimit", Detail: fmt.Sprintf("run exceeded %d steps\n%s", s.cfg.MaxSteps, s.dump())}
 			return
 		}
+		if s.invariant != nil {
+			if class, detail := s.invariant(); class != "" {
+				s.violation = &Violation{Class: class, Detail: detail}
+				return
+			}
+		}
+		for len(s.stepHooks) > 0 && s.stepHooks[0].at <= s.steps {
+			h := s.stepHooks[0]
+			s.stepHooks = s.stepHooks[1:]
+			g := s.newG(h.name, "stephook", nil)
+			g.parent = -2
+			s.start(g, h.fn)
+		}
 		cands = s.computeEnabled(cands[:0])
 		if len(cands) == 0 {
 			// quiescent at this instant: settle waiters first, then time
@@ -627,7 +642,7 @@ func (s *Sim) computeEnabled(cands []cand) []cand {
 		})
 	}
 	s.nReal = len(cands)
-	if nops > 0 && len(cands) == nops && len(s.timers) > 0 && !s.fair && s.cfg.Strategy.StallPermille > 0 {
+	if nops > 0 && len(cands) == nops && len(s.timers) > 0 && !s.timers[0].noStall && !s.fair && s.cfg.Strategy.StallPermille > 0 {
 		// stall move ("time passes although work is pending"): always offered as
 		// the LAST candidate, in search and in replay, so candidate numbering is
 		// identical in both modes; the default policy never selects it.
@@ -1102,4 +1117,47 @@ func RandShuffle(n int, swap func(i, j int)) {
 		return
 	}
 	rand.Shuffle(n, swap)
+}
+
+type stepHook struct {
+	at   int
+	name string
+	fn   func()
+}
+
+// AtStep starts fn as a new goroutine once the run has executed 'step'
+// scheduler steps (crash/shutdown-point injection).
+func AtStep(step int, name string, fn func()) {
+	s := cur
+	if s == nil {
+		return
+	}
+	s.stepHooks = append(s.stepHooks, stepHook{step, name, fn})
+	sort.SliceStable(s.stepHooks, func(i, j int) bool { return s.stepHooks[i].at < s.stepHooks[j].at })
+}
+
+// SetInvariant installs a function evaluated by the scheduler after every
+// step, while every goroutine is parked.  It must only inspect state (len of
+// channels, IsClosed, plain memory) and never perform channel operations.
+func SetInvariant(fn func() (class, detail string)) {
+	if s := cur; s != nil {
+		s.invariant = fn
+	}
+}
+
+// IsClosed reports whether a signal channel (one that never carries values)
+// has been closed, without blocking.
+func IsClosed[C ~chan T | ~<-chan T, T any](c C) bool {
+	if c == nil {
+		return false
+	}
+	if s := cur; s != nil && s.closed[chanPtr(c)] {
+		return true
+	}
+	select {
+	case _, ok := <-c:
+		return !ok
+	default:
+		return false
+	}
 }
